@@ -9,12 +9,15 @@ import (
 	"fmt"
 	standardwalletmanager "github.com/attestantio/dirk/services/walletmanager/standard"
 	"os"
+	"reflect"
 	"sort"
 	"strconv"
 	"strings"
 	"sync"
 	"syscall"
+	"sync/atomic"
 	"time"
+	"unsafe"
 
 	"github.com/attestantio/dirk/core"
 	"github.com/attestantio/dirk/rules"
@@ -96,9 +99,23 @@ func installFaults(f *faultSpec, failRoots map[string]bool) func() {
 	}
 	var mu sync.Mutex
 	fetches := 0
+	shut := false
+	var blockedFlag *int32
 	verifhook.SetHandler(func(name string, key []byte) error {
 		mu.Lock()
 		defer mu.Unlock()
+		if f.storeClosing && !shut && (name == "store.enter" || name == "batchstore.enter") {
+			shut = true
+			theWorld.beginShutdown()
+		}
+		if f.storeBlocked && blockedFlag == nil && (name == "store.enter" || name == "batchstore.enter") {
+			if blockedFlag = blockWritesFlag(theWorld.rules); blockedFlag != nil {
+				atomic.StoreInt32(blockedFlag, 1)
+			} else if !shut { // the store is laid out differently: take the real route
+				shut = true
+				theWorld.beginShutdown()
+			}
+		}
 		switch name {
 		case "fetch.enter":
 			i := fetches
@@ -125,7 +142,56 @@ func installFaults(f *faultSpec, failRoots map[string]bool) func() {
 		}
 		return nil
 	})
-	return func() { verifhook.SetHandler(baseHandler) }
+	return func() {
+		verifhook.SetHandler(baseHandler)
+		if blockedFlag != nil {
+			atomic.StoreInt32(blockedFlag, 0)
+		}
+		if shut {
+			theWorld.closeRules() // waits for the close in progress (badger closes once)
+			theWorld.openRules()
+		}
+	}
+}
+
+// theWorld is the world the sequential run engine executes in (set by openRules).
+var theWorld *world
+
+// beginShutdown does what main() does on SIGTERM while gRPC still drains requests in flight: it cancels the service
+// context, on which the rules service closes its store.  It returns once the store refuses writes (badger's Close
+// blocks writes first and marks the store closed only at its very end), or after 200ms.
+func (w *world) beginShutdown() {
+	w.cancel()
+	for i := 0; i < 400; i++ {
+		if b, ok := writesBlocked(w.rules); ok && b {
+			return
+		}
+		time.Sleep(500 * time.Microsecond)
+	}
+}
+
+// blockWritesFlag finds badger's write-refusal flag inside the rules service (nil when the layout is not as expected).
+func blockWritesFlag(svc any) (p *int32) {
+	defer func() {
+		if recover() != nil {
+			p = nil
+		}
+	}()
+	v := reflect.ValueOf(svc).Elem().FieldByName("store").Elem().FieldByName("db").Elem().FieldByName("blockWrites")
+	if v.Kind() != reflect.Int32 {
+		return nil
+	}
+	return (*int32)(unsafe.Pointer(v.UnsafeAddr()))
+}
+
+func writesBlocked(svc any) (blocked bool, ok bool) {
+	defer func() {
+		if recover() != nil {
+			blocked, ok = false, false
+		}
+	}()
+	v := reflect.ValueOf(svc).Elem().FieldByName("store").Elem().FieldByName("db").Elem().FieldByName("blockWrites")
+	return v.Int() == 1, true
 }
 
 func creds(client, ip string) *checker.Credentials {
@@ -289,6 +355,9 @@ func (w *world) execCtx(ctx context.Context, f []string) string {
 		w.restart()
 		return "ok"
 	case "list":
+		if w.viaGrpc {
+			return w.execGRPC(f)
+		}
 		client := ""
 		if f[1] != "." {
 			client = unhexStr(f[1])
